@@ -64,7 +64,8 @@ Print Assumptions C08_loop_nonvacuous.
 
 (* what the harness's TICK lines are judged against is a run of this model: polled exactly every P
    from the entry of the wait, the wait returns at the first tick at or after (latest refresh + T),
-   and with zero tolerance tick_conforms says exactly that *)
+   and with zero tolerance tick_conforms accepts exactly the instants from (latest refresh + T) up to
+   that tick (a tick that is delivered late may notice between two grid instants) *)
 Theorem C08_exact_ticks_run :
   forall T P start refs L n,
     0 < P -> 0 <= T -> start <= L ->
@@ -76,6 +77,12 @@ Proof. exact take_timeout_ideal. Qed.
 Print Assumptions C08_exact_ticks_run.
 Theorem C08_tick_judgement_exact :
   forall T start last ret, 0 < period T ->
-    (tick_conforms T 0 0 start last ret = true <-> ret = ideal_tick (period T) start (last + T)).
+    (tick_conforms T 0 0 start last ret = true <->
+     last + T <= ret <= ideal_tick (period T) start (last + T)).
 Proof. exact tick_conforms_exact. Qed.
 Print Assumptions C08_tick_judgement_exact.
+(* the accepted interval is never empty: the noticing tick itself is in it *)
+Theorem C08_noticing_tick_accepted :
+  forall P start x, 0 < P -> x <= ideal_tick P start x.
+Proof. exact ideal_tick_ge. Qed.
+Print Assumptions C08_noticing_tick_accepted.
